@@ -65,8 +65,19 @@ func runC13(c *Ctx) {
 		if fn == nil {
 			continue
 		}
-		w := p.Reaches(fn, func(name string, _ ssa.CallInstruction) bool { return strings.Contains(name, "pebble.DB)") }, 3)
-		c.Require("C13.R1 batch-ops-only-stage", key, p.Pos(fn.Pos()), "Batch.Set/Del never touch the pebble DB directly", w == nil, strings.Join(w, " → "))
+		w := p.Reaches(fn, func(name string, _ ssa.CallInstruction) bool {
+			if !strings.Contains(name, "cockroachdb/pebble") {
+				return false
+			}
+			// the only pebble operations a staging call may perform: staging on the inner batch
+			for _, okName := range []string{"pebble.Batch).Set", "pebble.Batch).Delete", "pebble.Batch).Len", "pebble.Batch).Count", "pebble.Batch).Empty"} {
+				if strings.HasSuffix(name, okName) {
+					return false
+				}
+			}
+			return true
+		}, 3)
+		c.Require("C13.R1 batch-ops-only-stage", key, p.Pos(fn.Pos()), "Batch.Set/Del only stage on the inner pebble batch: no commit, apply, reset or direct DB operation", w == nil, strings.Join(w, " → "))
 	}
 
 	// ---- R2 who may call Write / unbatched mutators
